@@ -26,6 +26,7 @@ def evaluate(case: Dict[str, Any]) -> Dict[str, Any]:
     legs = case.get("chain") or [{}]
     out: Dict[str, Any] = {"corr": [], "skipped": None, "tags": [], "prop": []}
     prev = None
+    prev_scaled = False
     ncomp = 0
     for li, leg in enumerate(legs):
         kw, desc, p = shell.build(case)
@@ -33,6 +34,7 @@ def evaluate(case: Dict[str, Any]) -> Dict[str, Any]:
         if prev is not None:
             kw["x0"] = np.array(prev.x, copy=True)
             kw["checkpoint"] = prev
+            shell.CK_SCALED[id(prev)] = prev_scaled
         run = Run(kw).execute()
         if run.nonfinite():
             # overflow / nan in the user's functions: outside the quantifier of every property
@@ -61,6 +63,7 @@ def evaluate(case: Dict[str, Any]) -> Dict[str, Any]:
                              "message": r.message, "nit": int(r.nit), "nfev": int(r.nfev),
                              "user_calls": len(run.rec.calls), "dcsrch_calls": sum(len(e["dc"]) for e in run.rec.ls)}
         prev = r
+        prev_scaled = prev_scaled or kw.get("gradient_scaler") is not None
     if len(legs) > 1:
         out["tags"].append(f"chain_len={len(legs)}")
     if ncomp == 0 and not out["skipped"]:
@@ -92,5 +95,8 @@ def gen_cases(prop: str, n: int, seed: int, monitors: List[str], feature_fn, cha
         c = {"seed": s, "features": feature_fn(r), "monitors": monitors, **common}
         if chain_frac and r.random() < chain_frac:
             c["chain"] = gen_chain(r)
+            if (c["features"] or {}).get("scaler", "none") != "none" and r.random() < 0.6:
+                # first leg without the scaler: the documented use "restart to apply some scaling"
+                c["chain"][0]["gradient_scaler"] = None
         out.append(c)
     return out
